@@ -16,12 +16,14 @@ func init() {
 			ID: "C28", Title: "BMP receiver tables mirror the monitored sessions", Level: "other",
 			Technique:   "must-pass-through and pairing rules on go/cfg and the call graph for the three ways a monitored session ends; iteration-safety rule (no range over a slice the body shrinks); encoder/decoder agreement of the ADD-PATH direction through the session constructor's field mapping",
 			DesignRef:   "DESIGN.md §4 C28",
-			Decided:     "(1) peer down, termination and loss of the BMP connection each reach, on every path, the disposal of both address families' Adj-RIB-In of the affected neighbor(s) — which flushes the routes into the VRF's Loc-RIB clients and unregisters it; (2) the disposal of all neighbors visits every neighbor: no loop ranges over the neighbor list while its body removes elements from it; (3) the ADD-PATH direction read from the monitored router's sent OPEN is the inverse of what bio-rd's own OPEN construction writes for the same configuration fields (send ↔ send, receive ↔ receive), so route-monitoring UPDATEs are decoded with the path-identifier setting the monitored session negotiated; (4) the pseudo session's Adj-RIB-In is registered with the VRF's Loc-RIB when the peer comes up.",
+			Decided:     "(0) from Router.cleanup, LocRIB.Dispose is reached for every table of every VRF (range over VRF.ribs within range over VRFRegistry.vrfs, neither left early), so table observers are told when the BMP connection ends; no function on the BMP message path registers a contributing ASN / cluster ID with the VRF (the loop check of the Adj-RIB-In stays inert for monitored tables); (1) peer down, termination and loss of the BMP connection each reach, on every path, the disposal of both address families' Adj-RIB-In of the affected neighbor(s) — which flushes the routes into the VRF's Loc-RIB clients and unregisters it; (2) the disposal of all neighbors visits every neighbor: no loop ranges over the neighbor list while its body removes elements from it; (3) the ADD-PATH direction read from the monitored router's sent OPEN is the inverse of what bio-rd's own OPEN construction writes for the same configuration fields (send ↔ send, receive ↔ receive), so route-monitoring UPDATEs are decoded with the path-identifier setting the monitored session negotiated; (4) the pseudo session's Adj-RIB-In is registered with the VRF's Loc-RIB when the peer comes up.",
 			NotDecided:  "that the tables contain *exactly* the announced-and-not-withdrawn routes for every message sequence (that is the behaviour of the RIB pipeline, C05–C09, under the BMP driver); observers being informed is the client-notification pairing of C06.",
 			TrustedBase: stdTrusted,
 		},
 		Run: runC28,
 		Controls: []Control{
+			{Name: "cleanup-drops-tables-without-telling-observers", File: "routingtable/vrf/vrf_registry.go", Old: "\t\tfor _, rib := range r.vrfs[id].ribs {\n\t\t\trib.Dispose()\n\t\t}\n", New: "\t\tr.vrfs[id].Dispose()\n", Expect: "session-end-disposes-tables"},
+			{Name: "bmp-session-registers-local-asn", File: "protocols/bgp/server/fsm_address_family.go", Old: "func (f *fsmAddressFamily) bmpInit() {\n", New: "func (f *fsmAddressFamily) bmpInit() {\n\tf.fsm.peer.vrf.AddContributingASN(f.fsm.peer.localASN)\n", Expect: "tables-hold-what-was-announced"},
 			{Name: "refactor-dispose-all-over-copy", Silent: true, File: "protocols/bgp/server/bmp_neighbor_manager.go", Old: "\tfor len(nm.neighbors) > 0 {\n\t\tnm._neighborDown(nm.neighbors[0].vrfID, nm.neighbors[0].peerAddress)\n\t}\n", New: "\tall := make([]*neighbor, len(nm.neighbors))\n\tcopy(all, nm.neighbors)\n\tfor _, n := range all {\n\t\tnm._neighborDown(n.vrfID, n.peerAddress)\n\t}\n"},
 			{Name: "dispose-all-ranges-over-shrinking-list", File: "protocols/bgp/server/bmp_neighbor_manager.go", Old: "\tfor len(nm.neighbors) > 0 {\n\t\tnm._neighborDown(nm.neighbors[0].vrfID, nm.neighbors[0].peerAddress)\n\t}\n", New: "\tfor _, n := range nm.neighbors {\n\t\tnm._neighborDown(n.vrfID, n.peerAddress)\n\t}\n", Expect: "iteration-visits-every-element"},
 			{Name: "add-path-direction-swapped", File: "protocols/bgp/server/bmp_router.go", Old: "\t\t\t\t\tcase packet.AddPathSend:\n\t\t\t\t\t\tpeerFamily.addPathSend = routingtable.ClientOptions{\n\t\t\t\t\t\t\tMaxPaths: 10,\n\t\t\t\t\t\t}\n\t\t\t\t\tcase packet.AddPathReceive:\n\t\t\t\t\t\tpeerFamily.addPathReceive = true\n", New: "\t\t\t\t\tcase packet.AddPathReceive:\n\t\t\t\t\t\tpeerFamily.addPathSend = routingtable.ClientOptions{\n\t\t\t\t\t\t\tMaxPaths: 10,\n\t\t\t\t\t\t}\n\t\t\t\t\tcase packet.AddPathSend:\n\t\t\t\t\t\tpeerFamily.addPathReceive = true\n", Expect: "add-path-direction-agreement"},
@@ -127,6 +129,87 @@ func runC28(c *core.Ctx) {
 			return true
 		})
 		c.Check(ok, "session-end-disposes-tables", serve.Name()+" runs cleanup when the connection ends", serve.Decl.Pos(), "the session loop can end (read error, stop) without the cleanup being run: all tables of the monitored router keep their routes")
+	}
+
+	// (1c) the cleanup tells the observers of every table: from Router.cleanup a call of LocRIB.Dispose is reached that sits
+	// in a range loop over a VRF's tables, itself (in the same function or through its caller) in a range loop over the
+	// registry's VRFs
+	if cl := c.MustFunc(srv + ".(*Router).cleanup"); cl != nil {
+		disp := p.Func("routingtable/locRIB.(*LocRIB).Dispose")
+		ribsF := p.Field("routingtable/vrf", "VRF", "ribs")
+		vrfsF := p.Field("routingtable/vrf", "VRFRegistry", "vrfs")
+		found, why := false, "LocRIB.Dispose is not reached from the cleanup"
+		if disp == nil || ribsF == nil || vrfsF == nil {
+			c.Undecided("session-end-disposes-tables", "LocRIB.Dispose / VRF.ribs / VRFRegistry.vrfs", token.NoPos, "anchors not found")
+		} else {
+			mentions := func(f *core.Fn, e ast.Expr, fv *types.Var) bool {
+				return core.NodeHas(e, func(n ast.Node) bool {
+					ex, ok := n.(ast.Expr)
+					return ok && core.FieldOf(f.Pkg, ex) == fv
+				})
+			}
+			inRangeOver := func(f *core.Fn, at ast.Node, fv *types.Var) bool {
+				for _, anc := range core.PathTo(f.Decl.Body, at) {
+					if rs, ok := anc.(*ast.RangeStmt); ok && mentions(f, rs.X, fv) && len(loopExits(rs.Body)) == 0 {
+						return true
+					}
+				}
+				return false
+			}
+			for _, f := range p.ReachableFns(cl) {
+				for _, call := range core.CallsAll(f.Pkg, f.Decl.Body, func(o *types.Func) bool { return o == disp.Obj }) {
+					why = "LocRIB.Dispose is called, but not for every table of every VRF (a range over VRF.ribs inside a range over VRFRegistry.vrfs, neither left early)"
+					if !inRangeOver(f, call, ribsF) {
+						continue
+					}
+					if inRangeOver(f, call, vrfsF) {
+						found = true
+						continue
+					}
+					// the per-VRF loop lives in a callee: its call site must be inside the loop over the VRFs
+					for _, cs := range callSitesOf(p, f) {
+						if inRangeOver(cs.f, cs.call, vrfsF) {
+							found = true
+						}
+					}
+				}
+			}
+			c.Check(found, "session-end-disposes-tables", cl.Name()+" disposes every table of every VRF", cl.Decl.Pos(),
+				why+": when the BMP connection goes away the observers registered on the per-VRF tables are neither told (Dispose) nor unregistered, and stay attached to orphaned tables")
+		}
+	}
+
+	// (1d) a BMP pseudo-session registers no loop-detection value: the Adj-RIB-In hides paths that contain a contributing ASN /
+	// cluster ID of the VRF, and a monitored router's table legitimately holds routes with its own ASN in the path
+	{
+		var roots []*core.Fn
+		for _, k := range []string{srv + ".(*Router).processMsg"} {
+			if f := c.MustFunc(k); f != nil {
+				roots = append(roots, f)
+			}
+		}
+		adds := core.KeyIs("routingtable/vrf.(*VRF).AddContributingASN", "routingtable/vrf.(*VRF).AddContributingClusterID")
+		n := 0
+		for _, f := range p.ReachableFns(roots...) {
+			if f.Decl.Body == nil {
+				continue
+			}
+			n++
+			for _, call := range core.Calls(f.Pkg, f.Decl.Body, adds) {
+				// the regular session set-up (fsmAddressFamily.init) is reachable too, but only behind `isBMP == false`
+				isBMPfalse := false
+				for _, ft := range core.FactsAt(f, call) {
+					if ft.Expr != nil && core.FieldOf(f.Pkg, ft.Expr) != nil && core.FieldOf(f.Pkg, ft.Expr).Name() == "isBMP" && !ft.Truth {
+						isBMPfalse = true
+					}
+				}
+				if isBMPfalse || f.Name() == srv+".(*fsmAddressFamily).init" {
+					continue
+				}
+				c.Fail("tables-hold-what-was-announced", f.Name()+" registers a loop-detection value on the BMP path", call.Pos(), "a function on the BMP message path registers a contributing ASN / cluster ID with the VRF: every monitored route whose AS path contains the monitored router's own ASN is then hidden by the Adj-RIB-In's loop check and never reaches the VRF table")
+			}
+		}
+		c.Check(n >= 5, "tables-hold-what-was-announced", "BMP message path analysed", token.NoPos, fmt.Sprintf("only %d functions reachable from Router.processMsg", n))
 	}
 
 	// (2) iteration safety over the neighbor list
